@@ -460,6 +460,10 @@ func (c *Ctx) WriteEvidence() error {
 	if len(samples) == 0 {
 		cov["samples"] = []interface{}{"no obligations were produced"}
 	}
+	c.Assumptions = append(c.Assumptions,
+		"go/ssa lowering of the code under test and the gosym engine's instruction semantics (validated on every run by replaying solver models through the natively compiled harness)",
+		"stubs: fmt/strings.Builder/os printing functions evaluate their arguments and do nothing; formatting returns an opaque string (list in coverage.stubs)",
+		"solver answers (z3 5.1.0, z3 4.8.12, cvc5 1.0); any error, unknown or timeout makes the run inconclusive (exit 3), never a success")
 	ev := Evidence{PropertyID: c.ID, Tier: c.Tier, Seed: c.Seed, Level: "model_checking", Coverage: cov, Assumptions: c.Assumptions, WallS: round3(time.Since(c.T0).Seconds()), Violations: len(c.Violations)}
 	b, _ := json.MarshalIndent(ev, "", " ")
 	os.MkdirAll(filepath.Join(VerifRoot, "evidence"), 0o755)
